@@ -80,7 +80,7 @@ CLAIMED.update({
 
 CLAIMED.update({
     "C20": dict(cat="exploration", ref="DESIGN.md §3 C20",
-        text="Real threads under a cooperative baton scheduler installed behind the lock-scope hooks (every wallet-lock acquisition in libwallet and api, plus node calls made outside lock scopes, is a yield point; a thread is never descheduled while it holds the wallet mutex, so the seeded choice list alone decides the interleaving and replays exactly). For each seeded scenario (T0 = full refresh pass or scan, plus 1-3 owner/foreign operations on the same wallet, node frozen during the window) all serial orders are executed from one directory snapshot to obtain the set of serial outcomes under a canonical projection, then uniform-random and PCT-style interleavings must each end in that set; a hang is reported as deadlock. Node events inside the concurrent window (tier 2 of the design) are not explored: they happen before the window.",
+        text="Real threads under a cooperative baton scheduler installed behind the lock-scope hooks (every wallet-lock acquisition in libwallet and api, plus node calls made outside lock scopes, is a yield point; a thread is never descheduled while it holds the wallet mutex, so the seeded choice list alone decides the interleaving and replays exactly). For each seeded scenario (T0 = full refresh pass or scan, plus 1-3 owner/foreign operations on the same wallet, node frozen during the window) all serial orders are executed from one directory snapshot to obtain the set of serial outcomes under a canonical projection, then uniform-random and PCT-style interleavings must each end in that set; a hang is reported as deadlock. In tier-2 scenarios the node event (a block confirming, spending or re-organising records) is applied inside the concurrent window at a scheduler-chosen point; there the oracle is completed effects (what an operation that returned Ok recorded is never replaced by data the background pass read before it ran). The real Updater::run loop is not adopted: T0 is one update_wallet_state pass or one scan.",
         tech="deterministic simulation: cooperative baton scheduler over real threads at wallet-lock granularity, seeded random + PCT schedules, serial-outcome-set (serializability) oracle"),
 })
 
